@@ -65,7 +65,7 @@ func c12MakePod(i int) c12Pod {
 
 func VerifC12_PatchPodBatchLabel() {
 	nb := verifrt.Concrete(verifrt.IntRange("nBatches", 1, 2))
-	R := verifrt.Concrete(verifrt.IntRange("R", 1, verifrt.Bound("R", 2, 4)))
+	R := verifrt.Concrete(verifrt.IntRange("R", 1, verifrt.Bound("R", 2, 3)))
 	var batches []v1beta1.ReleaseBatch
 	var planned []int
 	for i := 0; i < nb; i++ {
@@ -78,7 +78,21 @@ func VerifC12_PatchPodBatchLabel() {
 	var pods []c12Pod
 	var list []*corev1.Pod
 	for i := 0; i < np; i++ {
-		p := c12MakePod(i)
+		var p c12Pod
+		if i < 2 {
+			p = c12MakePod(i)
+		} else {
+			// thorough tier: further pods are plain live pods of either revision without rollout labels (the
+			// full label variety on every pod exceeds the path budget)
+			pod := &corev1.Pod{ObjectMeta: metav1.ObjectMeta{Namespace: "ns", Name: "pod-" + strconv.Itoa(i), Labels: map[string]string{}}}
+			p = c12Pod{pod: pod, live: true}
+			if verifrt.Bool("pod.newRevision") {
+				pod.Labels[apps.ControllerRevisionHashLabelKey] = c12Revision
+				p.newRev = true
+			} else {
+				pod.Labels[apps.ControllerRevisionHashLabelKey] = "rev-old"
+			}
+		}
 		pods = append(pods, p)
 		list = append(list, p.pod)
 	}
